@@ -51,9 +51,9 @@ class Frame:
 
 
 class LoopSpec:
-    def __init__(self, index="i", invariants=(), modifies=(), ghost_updates=(), unfold=()):
+    def __init__(self, index="i", invariants=(), modifies=(), entry_ghosts=None):
         self.index, self.invariants, self.modifies = index, list(invariants), list(modifies)
-        self.ghost_updates, self.unfold = list(ghost_updates), list(unfold)
+        self.entry_ghosts = entry_ghosts or {}     # ghost name -> spec expr, evaluated once when the loop is reached
 
 
 class Contract:
@@ -91,7 +91,7 @@ BUILTIN_CLASSES = {"str", "int", "float", "bool", "list", "tuple", "dict", "set"
                    "reversed", "frozenset", "super", "property"}
 BUILTIN_FUNCS = {"len", "abs", "min", "max", "sum", "any", "all", "isinstance", "round", "hash", "print", "sorted",
                  "hasattr", "getattr", "issubclass", "id", "repr", "iter", "next", "callable", "map", "filter"}
-SPEC_FUNCS = {"is_new", "implies", "forall", "exists", "old", "iff", "ite", "fresh_ref", "allocated", "is_old", "count_if",
+SPEC_FUNCS = {"local", "is_new", "implies", "forall", "exists", "old", "iff", "ite", "fresh_ref", "allocated", "is_old", "count_if",
               "unfold", "lower", "typeof", "same_type", "result_is_new", "distinct"}
 
 
@@ -107,6 +107,7 @@ class Interp(Ops, Builtins, DynOps):
         self.spec_funcs = {}       # extra spec functions name -> handler(interp, args, node)
         self.ghost_env = {}
         self.call_alloc = None
+        self.body_frame = None
         self.verifying = None      # fq of the function whose body is being verified
         self.old_state = None
         self.loop_ordinals = {}
@@ -1230,6 +1231,8 @@ class Interp(Ops, Builtins, DynOps):
                 attrs.add((nd.value.id, nd.attr))
             elif isinstance(nd, ast.AugAssign) and isinstance(nd.target, ast.Attribute) and isinstance(nd.target.value, ast.Name):
                 attrs.add((nd.target.value.id, nd.target.attr))
+            elif isinstance(nd, ast.Subscript) and isinstance(nd.ctx, ast.Store) and isinstance(nd.value, ast.Name):
+                names.add(nd.value.id)      # x[i] = v changes the value x denotes (tables, lists)
         return sorted(names), sorted(attrs)
 
     def cut_loop(self, s, fr, sym):
@@ -1257,6 +1260,8 @@ class Interp(Ops, Builtins, DynOps):
             inv_fr.vars[ivar] = VInt(idx)
             for nm, tx in spec.invariants:
                 self.ctx.assume(self.truth(self.eval_spec(tx, inv_fr)))
+        for gname, gtx in spec.entry_ghosts.items():
+            fr.vars[gname] = self.eval_spec(gtx, fr)
         check_inv(z3.IntVal(0), "entry")
         names, attrs = self.assigned_names(s.body)
         tnames, _ = self.assigned_names([ast.Assign(targets=[s.target], value=ast.Constant(0), lineno=s.lineno)])
@@ -1270,6 +1275,11 @@ class Interp(Ops, Builtins, DynOps):
                     except EngineError:
                         del fr.vars[tn]
         which = self.ctx.decide([("iter", []), ("exit", [])], f"loop{k}@{s.lineno}")
+        # context reset at the cut (keeps each query small): quantified facts gathered since the function's entry are
+        # dropped, the invariant has to be self-sufficient; requires, definitions and quantifier-free facts stay
+        c = self.ctx
+        if c.base_len is not None:
+            c.pc = c.pc[:c.base_len] + [f for f in c.pc[c.base_len:] if not has_quant(f)]
         self.havoc_for_loop(fr, names, attrs, spec, s)
         wmark = len(self.ctx.written)
         if which == 0:
@@ -1450,6 +1460,23 @@ class Interp(Ops, Builtins, DynOps):
         if name == "allocated":
             v = self.ev(e.args[0], fr)
             return VBool(z3.Select(ctx.alloc, v.z))
+        if name == "local":
+            # value of a local variable / loop ghost of the verified function at the point of return (default if unbound)
+            nm = self.ev(e.args[0], fr).const
+            bf = self.body_frame
+            if bf is not None and nm in bf.vars:
+                v = bf.vars[nm]
+                return v.inner if v.kind == "maybe" else v
+            if len(e.args) > 1:
+                c = self.contracts.get(self.verifying)
+                t = c.locals.get(nm) if c is not None else None
+                if isinstance(e.args[1], ast.List) and not e.args[1].elts and isinstance(t, TSList):
+                    # an unbound list local reads as the empty list of its declared type
+                    r = self.ctx.fresh("empty_" + nm, I)
+                    self.ctx.assume(z3.And(r > 0, self.ctx.slen(r) == 0))
+                    return VSList(r, t.elem)
+                return self.ev(e.args[1], fr)
+            raise EngineError(f"local('{nm}') is unbound on this path")
         if name == "is_old":
             v = self.ev(e.args[0], fr)
             return VBool(ctx.is_old(v.z))
